@@ -4,12 +4,18 @@
 #define STUB_H
 enum { EV_PYINIT = 1, EV_INIT_START, EV_INIT_END_OK, EV_INIT_END_FAIL, EV_CALL_PYTHON,
        EV_CALL_ENTER, EV_CALL_RETURN, EV_STARTUP, EV_MUTEX_WAIT, EV_MUTEX_ACQ, EV_MUTEX_REL,
-       EV_CAS, EV_GIL_WAIT, EV_GIL_ACQ };
-enum { BEH_OK = 0, BEH_FAIL, BEH_RECURSE_SELF, BEH_CALL_OTHER };
+       EV_CAS, EV_GIL_WAIT, EV_GIL_ACQ, EV_START_ENTER, EV_START_RETURN, EV_MUTEX_INIT };
+/* operation kinds: 0..3 = call the extern "Python" function with a result of
+   4 / 1 / 8 / 24 bytes, 4 = call cffi_start_python() */
+#define STUB_NKINDS 4
+#define STUB_OP_START 4
 void stub_ev(int lib, int kind, int a);
 void stub_yield(int lib, int point);
-int stub_behaviour(int lib);
 void stub_set_waiting(int w);
-int lib0_call(int arg);
-int lib1_call(int arg);
+void stub_in_extern_python(int lib);
+int stub_result_byte(int lib, int arg, int i);
+void lib0_call(int kind, int arg, unsigned char *out);
+void lib1_call(int kind, int arg, unsigned char *out);
+int lib0_start(void);
+int lib1_start(void);
 #endif
